@@ -93,3 +93,47 @@ def replay_oplist(oplist, module='TraceHistory', cfg='TraceHistory.cfg'):
     traces = [{'id': 1, 'nregs': max(1, len(m.regs) - 1), 'ev': m.events}]
     verdicts, states, trans, wall = tlcrun.validate_batch(traces, texts.rows, module=module, cfg=cfg)
     return verdicts[1], m
+
+
+def run_repo_tests(only=None, shards=8):
+    """The repository's own tests under the recorder (harness/pytest_recorder.py): every outermost public call of every test
+    becomes an event; TLC judges them like any other trace.  Returns a campaign-shaped dict."""
+    import subprocess
+    import tempfile
+    repo = os.environ.get('VERIF_REPO', '/repo')
+    root = os.path.dirname(os.path.dirname(os.path.abspath(__file__)))
+    d = tempfile.mkdtemp(prefix='verif-repotests-')
+    try:
+        out = os.path.join(d, 'traces.json')
+        env = dict(os.environ, PYTHONPATH=root, VERIF_TRACE_OUT=out, PYTHONDONTWRITEBYTECODE='1', VERIF_REPO=repo)
+        cmd = [os.path.join('/venv/bin/python') if os.path.exists('/venv/bin/python') else 'python3', '-m', 'pytest', '-q', '-p',
+               'no:cacheprovider', '-p', 'harness.pytest_recorder', only or 'tests']
+        p = subprocess.run(cmd, cwd=repo, env=env, stdout=subprocess.PIPE, stderr=subprocess.STDOUT, text=True, timeout=1800)
+        tail = p.stdout.strip().splitlines()[-1] if p.stdout.strip() else ''
+        res = {'rows': [], 'states': 0, 'transitions': 0, 'events': 0, 'gen_s': 0.0, 'tlc_s': 0.0, 'samples': [], 'errors': [],
+               'pytest_summary': tail}
+        if not os.path.exists(out):
+            res['errors'].append('repository tests under the recorder produced no trace file: ' + p.stdout[-800:])
+            return res
+        doc = json.load(open(out))
+        traces = doc['traces']
+        names = {t['id']: t.pop('name') for t in traces}
+        try:
+            verdicts, states, trans, wall = tlcrun.validate_sharded(traces, doc['texts'], shards=shards)
+        except tlcrun.Machinery as e:
+            res['errors'].append('machinery: ' + str(e))
+            return res
+        for t in traces:
+            v = verdicts[t['id']]
+            row = {'tid': t['id'], 'n': v['n'], 'fails': v['fails'], 'nt': v['nt'] if isinstance(v['nt'], dict) else {},
+                   'repo_test': names[t['id']]}
+            if v['fails']:
+                row['oplist'] = [{'repo_test': names[t['id']]}]
+                row['events'] = [{'op': e['op'], 'out': e['out'], 'a': e['a'], 'tag': e['tag']} for e in t['ev']]
+            res['rows'].append(row)
+        res['states'], res['transitions'] = states, trans
+        res['events'] = sum(len(t['ev']) for t in traces)
+        res['samples'] = [{'repo_test': names[traces[0]['id']], 'events': [e['op'] for e in traces[0]['ev']][:12]}] if traces else []
+        return res
+    finally:
+        shutil.rmtree(d, ignore_errors=True)
